@@ -74,7 +74,7 @@ def write_replay(prop, idx, profile_name, profile, run, finding, poolres):
     shutil.copy(run["trace"], os.path.join(d, "trace.tlc.ndjson"))
     ln = finding[1]
     ctx = []
-    with open(run["trace"]) as f:
+    with open(run["merged"] if finding[2].endswith("[merged trace]") else run["trace"]) as f:
         for n, line in enumerate(f, 1):
             if ln - 12 <= n <= ln + 2:
                 ctx.append("%d: %s" % (n, line.rstrip()[:600]))
@@ -102,6 +102,11 @@ def replay(d):
     vlib.run_harness(exe, open(os.path.join(d, "script.txt")).read(), raw, timeout=300)
     traceprep.write_for_tlc(raw, tl)
     v = vlib.validate_trace(tl, "replay")
+    ml = os.path.join(work, "merged.ndjson")
+    traceprep.write_for_tlc(raw, ml, merged=True)
+    x = vlib.validate_cross(ml, "replayx")
+    v["findings"] += x["findings"]
+    v["error"] = v["error"] or x["error"]
     for rj in v["rejected"][:3]:
         print("CONFORMANCE-DRIFT line=%d %s" % (rj["line"], rj["why"]))
     hit = [f for f in v["findings"] if f[0] == prop]
@@ -262,7 +267,7 @@ import components  # noqa: E402
 EXTRA = {"C10": components.extra_c10, "C13": components.extra_c13, "C20": components.extra_c20}
 
 # properties whose property-specific machinery is not finished yet (not claimed in MANIFEST.json)
-NOT_YET = {"C14", "C17"}
+NOT_YET = {"C14"}
 NA_REASON = {
     "C18": "absence of undefined behaviour and of heap allocation is a property of the C++ abstract machine (bounds, alignment, indeterminate reads), not of any state a TLA+ specification can describe; deciding it needs sanitizers / static analysis, i.e. a different technique (DESIGN.md section 8)",
 }
